@@ -687,7 +687,16 @@ func (c *mlCtx) e2e(r *mlRow) {
 	cs := func(op *mlOp) map[string]interface{} {
 		return c.rowCase(r, map[string]interface{}{"ctx": "e2e", "op": op})
 	}
-	fail := func(what, text string, op *mlOp) { c.j.fail("metalookup/own/e2e/"+what, text, cs(op)) }
+	// inside C05's statement: what a generated proxy does (Call2 -> MethodID -> CallID, SignalID / PropertyID ->
+	// SubscribeID, setProperty / property through the generic object).  proxy.Call (no caller in qiloop, not part of
+	// bus.Proxy) and a subscription to the id of a method are replayed and reported as observations.
+	fail := func(what, text string, op *mlOp) {
+		scope := "metalookup/own/e2e/"
+		if op != nil && (op.Op == "call" || op.Op == "subid") {
+			scope = "metalookup/outside/e2e/"
+		}
+		c.j.fail(scope+what, text, cs(op))
+	}
 	actor := &mlActor{rets: map[uint32]string{}}
 	for _, e := range r.User {
 		if e.K == "m" {
